@@ -1,5 +1,5 @@
 use crate::sparse::{Node, SparseMatrix};
-use std::collections::VecDeque;
+use std::collections::{HashMap, VecDeque};
 
 #[derive(Debug, Clone, Eq, PartialEq)]
 struct PathHead {
@@ -90,14 +90,30 @@ impl BFSContext<'_> {
     }
 
     pub fn local_girth(mut self, max: usize) -> Option<usize> {
+        // For each labelled node, the neighbour of the root through which it
+        // was first reached. A collision between two paths that leave the root
+        // through the same neighbour does not give a cycle containing the root.
+        // Only the nodes actually visited are stored, so a bounded search does
+        // not pay for the size of the graph.
+        let mut branches: HashMap<Node, Node> = HashMap::new();
         while let Some(head) = self.to_visit.pop_front() {
+            // neighbour of the root that the path to head goes through
+            // (None only when head is the root itself)
+            let head_branch = branches.get(&head.node).copied();
             for next_head in head.iter(self.h) {
+                let branch = head_branch.unwrap_or(next_head.node);
                 let next_dist = self.results.get_node_mut(next_head.node);
                 if let Some(dist) = *next_dist {
+                    if branches.get(&next_head.node) == Some(&branch) {
+                        // both paths share their first edge: not a cycle
+                        // through the root
+                        continue;
+                    }
                     let total = dist + next_head.path_length;
                     return if total <= max { Some(total) } else { None };
                 } else {
                     *next_dist = Some(next_head.path_length);
+                    branches.insert(next_head.node, branch);
                     if next_head.path_length < max {
                         self.to_visit.push_back(next_head);
                     }
